@@ -216,6 +216,11 @@ impl RtrStream {
     ) -> Result<(), io::Error>{
         use nix::sys::socket::{setsockopt, sockopt};
 
+        #[cfg(routinator_verif)]
+        if crate::verif::buggify("rtr.keepalive") {
+            return Err(io::Error::other("simulated setsockopt failure"))
+        }
+
         (|fd, duration: Duration| {
             setsockopt(fd, sockopt::KeepAlive, &true)?;
 
